@@ -5484,9 +5484,17 @@ class Symbol:
             or (
                 type(value) is str  # values other than bool should be string
                 and (
-                    (self.orig_type == INT and _is_base_n(value, 10))  # valid int
+                    # int()/float() also accept surrounding blanks, "_" digit separators and (hex) a sign; such
+                    # spellings would be written verbatim to sdkconfig and the C header
+                    (self.orig_type == INT and _is_base_n(value, 10) and _is_plain_number(value))  # valid int
                     or self.orig_type == STRING  # valid string
-                    or (self.orig_type == HEX and _is_base_n(value, 16) and int(value, 16) >= 0)  # valid hex
+                    or (
+                        self.orig_type == HEX
+                        and _is_base_n(value, 16)
+                        and int(value, 16) >= 0
+                        and _is_plain_number(value)
+                        and not value.startswith(("+", "-"))
+                    )  # valid hex
                     or (self.orig_type == FLOAT and is_float(value))  # valid float
                 )
             )
@@ -7586,6 +7594,11 @@ def _is_base_n(s, n):
         return True
     except ValueError:
         return False
+
+
+def _is_plain_number(s):
+    # True if 's' has no surrounding whitespace and no "_" digit separators (which int() would accept)
+    return s == s.strip() and "_" not in s
 
 
 def _looks_like_number(s):
